@@ -18,6 +18,9 @@ GRIDS = {
     's42': [('x', (-1, 1)), ('y', (0, 1))],
     'n42': [('x', (-3, -1)), ('y', (0, 1))],    # -4..-1 x 0..1
     'g44': [('x', (0, 2)), ('y', (-1, 1))],     # 16 points
+    'b5': [('x', (0, 1)), ('y', (0, 1)), ('z', (0, 1)), ('w', (0, 1)),
+           ('v', (0, 1))],                      # 32 points (sampled only)
+    'g444': [('x', (0, 2)), ('y', (0, 2)), ('z', (0, 1))],  # 32 points
     'n44': [('x', (-3, -1)), ('y', (-1, 0))],   # -4..-1 x -2..1
 }
 
